@@ -49,9 +49,7 @@ Proof.
   assert (H0 : ctor_calibration vol rot tr map = Ok tt ->
                vol = PArr [3]%nat /\ rot = PArr [3; 3]%nat /\ tr = PArr [3]%nat /\ exists n, map = PArr [n]).
   { unfold ctor_calibration. intros H.
-    destruct (has_shape_attr vol); cbn [negb] in H; [|discriminate]. step_arr H.
-    destruct (has_shape_attr rot); cbn [negb] in H; [|discriminate]. step_arr H.
-    destruct (has_shape_attr tr); cbn [negb] in H; [|discriminate]. step_arr H.
+    step_arr H. step_arr H. step_arr H.
     destruct map as [| | | | |[|n [|]]| |]; try discriminate. subst. repeat split. now exists n. }
   split; [split; [exact H0|]|].
   - intros [-> [-> [-> [n ->]]]]. reflexivity.
